@@ -1,35 +1,18 @@
 import Driver.Value
-import APModel.Model.Deep
-import APModel.Model.Equal
-import APModel.Spec.Vocabulary
-import APModel.Generated.Equals
+import APModel.Model.DeepEnv
+import APModel.Theory.Deep
 open Lean APModel APModel.Codec APModel.Deep
 
 namespace Driver
 
-def kindOfTypeName (t : Deep.Str) : Option Kind :=
-  if t.isEmpty then some .object
-  else (Spec.vocabulary.find? (fun e => e.name == strOfBytes t)).map (·.kind)
-
-/-- url.ParseRequestURI succeeded with a scheme and a host (modelled on the grammar of the IRI model;
-strings outside that grammar are taken to be absolute when they hold "://") -/
-def validIRIString (s : Deep.Str) : Bool :=
-  match IRI.parseURL s with
-  | .abs u => !u.host.isEmpty
-  | .notAbs => false
-  | .outside => (IRI.findSub IRI.schemeSep s).isSome
-
-/-- the deep model instantiated with the tables regenerated from the source -/
-def envJson : Env where
-  wrow sn n := (jsonW sn).find? (fun w => w.field == n)
-  rrow sn name := (jsonR sn).find? (fun r => r.term == name)
-  rrowMap sn name := (jsonR sn).find? (fun r => r.helper == "JSONGetNaturalLanguageField" && r.term ++ "Map" == name)
-  fieldKind sn n := (((schemaOf sn).find? (fun r => r.1 == n)).map (fun r => r.2.1)).getD "?"
-  kindOfType := kindOfTypeName
-  validIRI := validIRIString
-  eqv a b := (Equal.itemsEqual APModel.Generated.equalsRows a b).getD false
-
 def opDeepRoundTrip (j : Json) : R Json := do
   return renderItem (normG (roundTrip envJson (← parseItem (← fld j "v"))))
 
+end Driver
+
+namespace Driver
+open APModel.Deep in
+/-- is the value inside the domain of the whole-tree theorem? -/
+def opDeepWF (j : Json) : R Json := do
+  return Json.bool (wfItem envJson (← parseItem (← fld j "v")))
 end Driver
